@@ -112,8 +112,12 @@ class Prop(PropBase):
         return f'(table_codec {tps} {tls})'
 
     def coq_check(self, case, obs):
-        if not R.modelable(case) or not R.modelable(obs):
+        if 'skip' in obs or not R.modelable(case) or not R.modelable(obs):
             return '2%nat'
+        for k in ('write', 'fetch', 'res', 'parser'):
+            r = obs.get(k)
+            if r and r[0] == 'err' and r[1].startswith('Unicode'):
+                return '2%nat'     # the on-disk encoding is outside the model
         F = R.FMT[case['fmt']]['coq']
         ctx = coq_ctx(case)
         c = self._codec(case, obs)
@@ -219,6 +223,8 @@ class Prop(PropBase):
             out.append(fail('codec-law', f'{fmt}: the serialiser rejected a representable payload {fp!r}: '
                                          f'{obs["oracle"].get("print")!r}', f'{fmt}-codec-rejects'))
             return out
+        if obs['write'][0] != 'ok' and obs['write'][1] == 'UnicodeEncodeError' and obs.get('encodable') is False:
+            return out          # the document cannot be written in the requested encoding
         if obs['write'][0] != 'ok':
             out.append(fail('write-raises', f'{fmt}: filewrite raised {obs["write"][1:]} for a representable '
                                             f'payload {fp!r}', f'{fmt}-write-raises'))
@@ -273,6 +279,8 @@ class Prop(PropBase):
     def _mon_ff(self, case, obs):
         out = []
         fmt = case['fmt']
+        if 'skip' in obs:
+            return out
         o = obs['oracle']
         if case.get('no_infile') or o['in_parsed'][0] != 'ok' or obs.get('expected', ['err'])[0] != 'ok':
             return out
@@ -291,9 +299,18 @@ class Prop(PropBase):
                   'toml': lambda v: R.plain_data(v, False, True) and is_map(v)}[fmt]
         if not doc_ok(exp):
             return out
+        if obs['res'][0] != 'ok' and obs['res'][1].startswith('Unicode') and obs.get('out_encodable') is False:
+            return out          # the formatted document cannot be written in the requested encodingOut
         if obs['res'][0] != 'ok':
             out.append(fail('fileformat-raises', f'{fmt}: fileformat raised {obs["res"][1:]}; the formatted '
                                                  f'document {exp!r} is representable', f'{fmt}-fileformat-raises'))
+            return out
+        if obs.get('decode', 'ok') != 'ok':
+            ei, eo = R.ff_encodings(case)
+            out.append(fail('output-encoding',
+                            f'{fmt}: encodingIn={ei} encodingOut={eo} '
+                            f'({"in place" if (case.get("out_real") or case["in_real"]) == case["in_real"] else "to out"}): '
+                            f'{obs["decode"]}', f'{fmt}-output-not-in-encodingOut'))
             return out
         po = obs.get('out_parsed')
         if po is None or po[0] != 'ok':
@@ -307,6 +324,8 @@ class Prop(PropBase):
 
     # ------------------------------------------------------------------ evidence
     def nontrivial(self, case, obs):
+        if 'skip' in obs:
+            return False
         if case['kind'] == 'wf':
             if obs.get('write') and obs['write'][0] != 'ok':
                 return True
@@ -318,6 +337,13 @@ class Prop(PropBase):
 
     def describe(self, case, obs):
         tags = [f'{case["kind"]}:{case["fmt"]}']
+        if 'skip' in obs:
+            return tags + ['ff:skipped-input-not-encodable']
+        if case['kind'] == 'ff' and case['fmt'] != 'toml':
+            ei, eo = R.ff_encodings(case)
+            tags += [f'encIn:{case.get("enc_in") or case.get("enc") or "default"}',
+                     f'encOut:{case.get("enc_out") or case.get("enc") or "default"}',
+                     'enc-in-out:' + ('same' if ei == eo else 'different')]
         if case['kind'] == 'wf':
             w, fe = obs.get('write'), obs.get('fetch')
             tags.append('write:' + ('skipped' if w is None else w[0] if w[0] == 'ok' else w[1].split('.')[-1]))
